@@ -1,6 +1,6 @@
 (* C06 — Picture headers are parsed field-for-field as H.263 and Sorenson define them. *)
 From H263V Require Import base.Prelude model.Types model.Reader model.Header spec.SpecHeader
-  proofs.HeaderLemmas proofs.HeaderRoundTrip.
+  proofs.HeaderLemmas proofs.HeaderRoundTrip proofs.PlusRoundTrip.
 
 (* Sorenson Spark: for EVERY combination of version, temporal reference, size code (8- and 16-bit custom
    sizes, five fixed sizes, reserved), picture type, deblocking flag, quantizer and extra-information bytes,
@@ -21,6 +21,17 @@ Theorem C06_baseline_roundtrip : forall h prev scal rest pos,
                = Ok (Some (picture_of_std h), mkReader rest pos').
 Proof. exact std_roundtrip. Qed.
 
+(* H.263v2 headers with PLUSPTYPE, UFEP = 001: every combination of TR, PTYPE flags, OPPTYPE source format
+   (fixed sizes, reserved, custom), the eleven OPPTYPE option bits, MPPTYPE picture type 0..7 with RRU and
+   RTYPE (RPR = 0: resampling parameters are not implemented and rejected), CPM/PSBI, CPFMT with every
+   PAR code, PWI, PHI and extended PAR, CPCFC/ETR, UUI ('1' and '01'), SSS, ELNUM/RLNUM when scalability is
+   enabled, RPSMF, TRPI/TRP, BCI '01', PQUANT, TRB (3 or 5 bits) / DBQUANT and PEI bytes. *)
+Theorem C06_plus_roundtrip : forall h prev scal rest pos,
+  wf_plus h -> prev_compatible prev (plus_format h) ->
+  exists pos', decode_picture (mkOpts false scal) prev (mkReader (enc_plus scal h ++ rest) pos)
+               = Ok (Some (picture_of_plus scal h), mkReader rest pos').
+Proof. exact plus_roundtrip. Qed.
+
 (* the temporal reference of every parsed header lies in 0..1023 *)
 Theorem C06_tr_range : forall o prev r p r',
   decode_picture o prev r = Ok (Some p, r') -> 0 <= temporal_reference p < 1024.
@@ -31,6 +42,14 @@ Example C06_example :
   wf_sorenson (mkSor 1 200 (SzCustom8 17 9) 2 true 31 [7; 255]).
 Proof. unfold wf_sorenson, wf_sor_size, byte_ok. cbn. repeat split; try lia. repeat constructor; lia. Qed.
 
+(* non-vacuity: a PLUSPTYPE header using every follower (custom format with extended PAR, custom clock,
+   UUI, SSS, RPS with TRP, improved PB frame) *)
+Example C06_plus_example :
+  wf_plus (mkPlus 77 true false true 6 true true false true false true true true false true false 2 true false
+                  (Some 3) 15 43 36 7 9 200 2 false 3 5 6 5 (Some 513) 17 21 2 [1; 2]).
+Proof. unfold wf_plus, byte_ok. cbn. repeat split; try lia. repeat constructor; lia. Qed.
+
 Print Assumptions C06_sorenson_roundtrip.
 Print Assumptions C06_baseline_roundtrip.
+Print Assumptions C06_plus_roundtrip.
 Print Assumptions C06_tr_range.
